@@ -153,7 +153,7 @@ def check(run):
                       'check_accept_queue removes with %s, not the front' % op, 'removes the front')
     fronts = [n for n in caq.all_nodes() if n['k'] == 'call' and (n.get('callee') or '').endswith('::front') and q.render(caq, n.get('obj')) == 'm_incoming_conns']
     run.check(len(fronts) == 1, 'R2k', 'accept-queue-read-front', A + '::check_accept_queue', caq.loc(), 'the connection handed out is not m_incoming_conns.front()', 'hands out front()')
-    run.floor('R2k', 4)
+    run.floor('R2k', 2)
 
     run.clause('a reused socket object receives nothing addressed to its previous connection: the forwarder is detached and dropped on close and created fresh on open (shared with C12)')
     import p12
